@@ -16,6 +16,7 @@ type expectation struct {
 	cause  string
 	lo, hi int  // inclusive range of acceptable statuses
 	faulty bool // false: nothing went wrong for this operation
+	soft   bool // something went wrong that the front end may or may not survive: any status is accepted
 }
 
 func exact(cause string, st int) expectation {
@@ -70,6 +71,24 @@ func (w *World) expect(op *Op) expectation {
 	if op.Bad != "" {
 		return class4("bad-request:" + op.Bad)
 	}
+	// external issuance-chain storage: a chain that could not be stored or read back is a backend fault like any
+	// other ("every other backend fault ... gives 5xx"); cache trouble alone is not (the store is asked instead)
+	soft := ""
+	for _, k := range op.StoreOps {
+		switch k {
+		case "store.err", "store.lost", "store.corrupt":
+			return expectation{cause: "chain-store:" + k, lo: 500, hi: 599, faulty: true}
+		case "ctx":
+			// the request's deadline passed inside a chain store / cache call: the statement names timeouts of
+			// backend calls (504); for the chain store it only follows that the request cannot succeed
+			return non200("chain-store:timeout")
+		case "cache.err":
+			soft = k // the cache failing is survivable (the store can be asked) or not: both are accepted
+		}
+	}
+	if soft != "" {
+		return expectation{cause: "chain-cache:" + soft, lo: 200, hi: 599, faulty: true, soft: true}
+	}
 	for _, c := range op.Calls {
 		switch c.Decision.Kind {
 		case "rpc.status":
@@ -121,6 +140,9 @@ func oracleC08(w *World, op *Op) {
 	}
 	s.Probe("faulty." + strings.SplitN(e.cause, ":", 2)[0])
 	key := op.Kind + "/" + e.cause
+	if e.soft {
+		return
+	}
 	if op.Status == 200 {
 		s.Violate("fault-as-success", key, "op%03d %s?%s answered 200 although %s; body %.120q", op.ID, op.Kind, op.Query, e.cause, op.RespBody)
 		return
